@@ -4,7 +4,10 @@ R-PANIC: every panic site reachable from a public function (after folding infeas
 in the documented-panic table.  R-BOUNDS: every raw memory access through a slice argument is covered by
 a length check established earlier on the path; every raw store fits its destination object, with
 sufficient alignment; MaybeUninit results are fully initialised.  R-ATOMIC: in the slice writers a documented panic is never reachable
-after part of the destination has been written (path-sensitive write marker kept in the abstract heap)."""
+after part of the destination has been written (path-sensitive write marker kept in the abstract heap).  R-SLICELEN / R-INDEXRANGE: the
+slice and index functions panic exactly for too-short slices / out-of-range indices (decided on the finite orderings of the length / index
+against the constants it is compared with), and those panics depend on the length / index only, never on the stored values.  R-DOC: an inherent
+public function that owns such a panic announces it in its rustdoc."""
 import re
 import terms as tm
 from common import api_roots, tydef, vec_info, leaves_plain, hidden_offsets, TRUSTED_COMMON, rustdoc_of
